@@ -15,6 +15,7 @@
 //!   builder's parts, before and after every role in random order; thorough tier: prove + extract.
 
 mod base;
+mod bytes;
 mod recipe;
 
 use std::collections::BTreeSet;
@@ -29,7 +30,8 @@ use vcore::{catch, hash64, pick_index, vensure, vensure_eq, vfail, CaseResult, C
 use zcash_pool_migration::pczt_txid::pczt_txid;
 
 use base::Base;
-use recipe::{materialise, ser2, set_vals, union, universe, Eff, Key, Recipe, St, Union, OA};
+use bytes::{check_pczt_bytes, dep_site, first_diff, ser2, without_sapling_anchor};
+use recipe::{materialise, set_vals, union, universe, Eff, Key, Recipe, St, Union, OA};
 
 const MAX_COPIES: usize = 5;
 
@@ -98,6 +100,18 @@ fn arb_combine_case() -> impl Strategy<Value = CombineCase> {
             foreign,
             order_seed,
         })
+}
+
+/// Interns a (bounded) set of dynamic counter names.
+fn static_name(s: &str) -> &'static str {
+    static NAMES: std::sync::OnceLock<std::sync::Mutex<std::collections::BTreeMap<String, &'static str>>> = std::sync::OnceLock::new();
+    let mut m = NAMES.get_or_init(Default::default).lock().unwrap();
+    if let Some(n) = m.get(s) {
+        return n;
+    }
+    let leaked: &'static str = Box::leak(s.to_string().into_boxed_str());
+    m.insert(s.to_string(), leaked);
+    leaked
 }
 
 fn n_bases(ctx: &Ctx) -> usize {
@@ -342,12 +356,15 @@ fn check_combine(ctx: &Ctx, c: &CombineCase) -> CaseResult {
     let mut diff_bundles = BTreeSet::new();
     for k in recipe::touched(&b, &recipes) {
         let effs: BTreeSet<Eff> = recipes.iter().map(|r| r.eff(&b, &k)).collect();
-        if effs.len() > 1 {
+        // "kept" vs "removed" is a difference only if the base carries the field at all
+        let only_base_vs_absent = effs.iter().all(|e| matches!(e, Eff::Base | Eff::Absent));
+        if effs.len() > 1 && (!only_base_vs_absent || recipe::base_has(&b, &k)) {
             diff_kinds.insert(k.kind());
             diff_bundles.insert(k.bundle());
         }
     }
     let nontrivial = c.n >= 2 && diff_kinds.len() >= 2 && diff_bundles.len() >= 2;
+    let kind_counters: Vec<&'static str> = diff_kinds.iter().map(|k| static_name(&format!("differs:{k}"))).collect();
     let mut obs = Obs::new(nontrivial)
         .key(hash64(format!("{bidx}|{}", describe_recipes(&recipes)).as_bytes()))
         .count("orders", orders.len() as u64)
@@ -361,6 +378,9 @@ fn check_combine(ctx: &Ctx, c: &CombineCase) -> CaseResult {
         })
         .label_if(recipes.iter().any(|r| r.fin.is_some()), "has-spend-finalizer-copy")
         .label_if(c.n >= 4, "copies>=4");
+    for k in kind_counters {
+        obs = obs.count(k, 1);
+    }
 
     if let Some(_why) = expect_conflict {
         return Ok(obs.label("conflict").label_if(c.foreign.is_some(), "conflict-foreign-tx").label_if(matches!(u, Union::Conflict(..)), "conflict-field"));
@@ -447,90 +467,6 @@ fn check_combine(ctx: &Ctx, c: &CombineCase) -> CaseResult {
 // ---------------------------------------------------------------------------------------------
 // Encoding
 // ---------------------------------------------------------------------------------------------
-
-#[derive(Clone, Debug, Default)]
-pub struct BytesObs {
-    pub accepted: bool,
-    pub header_version: u32,
-    /// The only difference between the parsed value and its own round trip is the Sapling anchor of a
-    /// spend-less bundle turning from absent into `Some([0; 32])` (known finding).
-    pub sapling_anchor_placeholder: bool,
-    pub effects_ok: bool,
-}
-
-fn header_version(bytes: &[u8]) -> u32 {
-    u32::from_le_bytes(bytes[4..8].try_into().unwrap())
-}
-
-fn without_sapling_anchor(p: &Pczt) -> Pczt {
-    pczt::roles::redactor::Redactor::new(p.clone()).redact_sapling_with(|mut s| s.clear_anchor()).finish()
-}
-
-/// Byte-level oracle (no harness context, reusable by a fuzz target): `Pczt::parse` never panics; if
-/// it accepts, the value serialises, its serialisation is accepted again and is a fixed point, the
-/// minimal-version rule holds, the re-parsed value equals the parsed one, and computing the effects
-/// does not panic.
-pub fn check_pczt_bytes(bytes: &[u8]) -> Result<BytesObs, Fail> {
-    let mut obs = BytesObs::default();
-    let parsed = catch(|| Pczt::parse(bytes)).map_err(|p| Fail::new("parse-panic", format!("Pczt::parse panicked on {} bytes: {p}", bytes.len())))?;
-    let p = match parsed {
-        Err(_) => return Ok(obs),
-        Ok(p) => p,
-    };
-    obs.accepted = true;
-    let s1 = catch(|| p.clone().serialize())
-        .map_err(|e| Fail::new("serialize-panic", format!("serialize panicked on an accepted PCZT: {e}")))?
-        .map_err(|e| Fail::new("accepted-not-serializable", format!("serialize failed on an accepted PCZT: {e:?}")))?;
-    vensure!(s1.len() >= 8 && &s1[..4] == b"PCZT", "bad-header", "serialisation does not start with the magic");
-    obs.header_version = header_version(&s1);
-    let v1 = catch(|| pczt::v1::Pczt::try_from(p.clone())).map_err(|e| Fail::new("serialize-panic", format!("v1 conversion panicked: {e}")))?;
-    match (&v1, obs.header_version) {
-        (Ok(v1), 1) => vensure!(v1.serialize() == s1, "version-not-minimal", "header says v1 but the bytes are not the v1 encoding"),
-        (Err(_), 2) => {}
-        (Ok(_), v) => vfail!("version-not-minimal", "the v1 encoding can represent this PCZT but serialize() chose version {v}"),
-        (Err(e), v) => vfail!("version-not-minimal", "serialize() chose version {v} although the v1 conversion fails with {e:?}"),
-    }
-    let p2 = catch(|| Pczt::parse(&s1))
-        .map_err(|e| Fail::new("parse-panic", format!("Pczt::parse panicked on a serialisation: {e}")))?
-        .map_err(|e| Fail::new("own-encoding-rejected", format!("serialize() output is rejected by parse: {e:?}")))?;
-    let s2 = p2.clone().serialize().map_err(|e| Fail::new("accepted-not-serializable", format!("{e:?}")))?;
-    vensure!(s1 == s2, "reserialize-not-fixed-point", "serialize(parse(serialize(p))) != serialize(p) ({} vs {} bytes)", s2.len(), s1.len());
-    // value equality through the forced-v2 bytes
-    let (a, b) = (ser2(&p), ser2(&p2));
-    if a != b {
-        let placeholder = obs.header_version == 1
-            && p.sapling().spends().is_empty()
-            && p.sapling().anchor().is_none()
-            && *p2.sapling().anchor() == Some([0u8; 32])
-            && ser2(&without_sapling_anchor(&p)) == ser2(&without_sapling_anchor(&p2));
-        if placeholder {
-            obs.sapling_anchor_placeholder = true;
-        } else {
-            vfail!(
-                "roundtrip-value-changed",
-                "parse(serialize(p)) is not p (forced-v2 bytes {} vs {}): {}",
-                b.len(),
-                a.len(),
-                first_diff(&format!("{p2:#?}"), &format!("{p:#?}"))
-            );
-        }
-    }
-    // the forced-v2 encoding is accepted and is a fixed point too
-    let p3 = Pczt::parse(&a).map_err(|e| Fail::new("own-encoding-rejected", format!("forced v2 bytes are rejected by parse: {e:?}")))?;
-    vensure!(ser2(&p3) == a, "reserialize-not-fixed-point", "forced-v2 bytes are not a fixed point");
-    // `pczt_txid` documents `Err(TxIdError::Effects)` for a PCZT that parses but whose bundles are
-    // malformed: it must not panic, and the answer survives the round trip
-    let txid_panic = |e: String| Fail::new(format!("txid-panic-on-malformed-bundle:{}", dep_site(&e)), format!("pczt_txid / into_effects panicked on a PCZT accepted by parse: {e}"));
-    let e1 = catch(|| pczt_txid(&p)).map_err(txid_panic)?;
-    let e2 = catch(|| pczt_txid(&p2)).map_err(txid_panic)?;
-    if !obs.sapling_anchor_placeholder {
-        vensure_eq!(e1, e2, "roundtrip-txid-changed", "txid before/after a serialisation round trip");
-    } else if let (Ok(a), Ok(b)) = (&e1, &e2) {
-        vensure_eq!(a, b, "roundtrip-txid-changed", "txid before/after a serialisation round trip");
-    }
-    obs.effects_ok = e1.is_ok();
-    Ok(obs)
-}
 
 #[derive(Clone, Debug)]
 struct Mutation {
@@ -744,6 +680,9 @@ enum Step {
 struct RolesCase {
     base_sel: u32,
     refinalize: bool,
+    /// start from a PCZT as a foreign Constructor could emit it: one transparent input with a
+    /// sequence number / required lock time / other sighash type (kind, input selector, value)
+    wire: Option<(u8, u32, u32)>,
     steps: Vec<Step>,
 }
 
@@ -763,8 +702,13 @@ fn arb_step() -> impl Strategy<Value = Step> {
 }
 
 fn arb_roles_case() -> impl Strategy<Value = RolesCase> {
-    (any::<u32>(), prop::bool::weighted(0.15), prop::collection::vec(arb_step(), 3..12))
-        .prop_map(|(base_sel, refinalize, steps)| RolesCase { base_sel, refinalize, steps })
+    (
+        any::<u32>(),
+        prop::bool::weighted(0.15),
+        prop::option::weighted(0.3, (0u8..4, any::<u32>(), any::<u32>())),
+        prop::collection::vec(arb_step(), 3..12),
+    )
+        .prop_map(|(base_sel, refinalize, wire, steps)| RolesCase { base_sel, refinalize, wire, steps })
 }
 
 const SOFT: &str = "role-rejected-valid-request";
@@ -880,7 +824,18 @@ fn verify_signatures(b: &Base, p: &Pczt) -> Result<u64, Fail> {
     }
 }
 
-fn apply_step(b: &Base, p: &Pczt, step: &Step, snapshots: &[Pczt], gone: &mut BTreeSet<Key>, uni: &[Key], settable: &[Key]) -> Result<Pczt, Fail> {
+#[allow(clippy::too_many_arguments)]
+fn apply_step(
+    b: &Base,
+    p: &Pczt,
+    step: &Step,
+    snapshots: &[Pczt],
+    snap_gone: &[BTreeSet<Key>],
+    gone: &mut BTreeSet<Key>,
+    uni: &[Key],
+    settable: &[Key],
+    foreign: bool,
+) -> Result<Pczt, Fail> {
     use pczt::roles::{io_finalizer::IoFinalizer, low_level_signer, signer::Signer, spend_finalizer::SpendFinalizer, updater::Updater, verifier::Verifier};
     match step {
         Step::Add(list) => {
@@ -925,16 +880,16 @@ fn apply_step(b: &Base, p: &Pczt, step: &Step, snapshots: &[Pczt], gone: &mut BT
                     .finish();
             }
             let mut signer = Signer::new(q).map_err(soft("Signer::new"))?;
-            vensure_eq!(signer.shielded_sighash(), b.sighash_parts, "sighash-wrong", "Signer::shielded_sighash vs the hash computed from the builder's parts");
+            if !foreign {
+                vensure_eq!(signer.shielded_sighash(), b.sighash_parts, "sighash-wrong", "Signer::shielded_sighash vs the hash computed from the builder's parts");
+            }
             for i in 0..b.n_tin {
                 if take() {
                     // finalized P2SH inputs have lost their redeem script; the Signer then refuses
-                    vensure_eq!(
-                        signer.transparent_sighash(i).map_err(soft("Signer::transparent_sighash"))?,
-                        b.t_sighash_parts[i],
-                        "sighash-wrong",
-                        "Signer::transparent_sighash({i}) vs the hash computed from the builder's parts"
-                    );
+                    let h = signer.transparent_sighash(i).map_err(soft("Signer::transparent_sighash"))?;
+                    if !foreign {
+                        vensure_eq!(h, b.t_sighash_parts[i], "sighash-wrong", "Signer::transparent_sighash({i}) vs the hash computed from the builder's parts");
+                    }
                     signer.sign_transparent(i, &b.t_sks[i][0]).map_err(soft("Signer::sign_transparent"))?;
                 }
             }
@@ -978,10 +933,15 @@ fn apply_step(b: &Base, p: &Pczt, step: &Step, snapshots: &[Pczt], gone: &mut BT
             Ok(q)
         }
         Step::CombineSnapshot(i, order) => {
-            let other = snapshots[*i as usize % snapshots.len()].clone();
+            let si = *i as usize % snapshots.len();
+            let other = snapshots[si].clone();
             let list = if *order { vec![p.clone(), other] } else { vec![other, p.clone()] };
             match combine(list)? {
-                Ok(q) => Ok(q),
+                Ok(q) => {
+                    // the snapshot brings back what was removed since (and only that)
+                    *gone = gone.intersection(&snap_gone[si]).copied().collect();
+                    Ok(q)
+                }
                 Err(CombineError::DataMismatch) => Err(Fail::new(SOFT, "Combiner: DataMismatch with an earlier snapshot")),
                 Err(e) => Err(Fail::new("conflict-wrong-error", format!("{e:?}"))),
             }
@@ -1028,6 +988,81 @@ fn apply_step(b: &Base, p: &Pczt, step: &Step, snapshots: &[Pczt], gone: &mut BT
     }
 }
 
+fn leb128(mut v: u32) -> Vec<u8> {
+    let mut out = vec![];
+    loop {
+        let b = (v & 0x7f) as u8;
+        v >>= 7;
+        if v == 0 {
+            out.push(b);
+            return out;
+        }
+        out.push(b | 0x80);
+    }
+}
+
+fn find(hay: &[u8], needle: &[u8], from: usize) -> Option<usize> {
+    if needle.is_empty() || hay.len() < needle.len() {
+        return None;
+    }
+    (from..=hay.len() - needle.len()).find(|i| &hay[*i..*i + needle.len()] == needle)
+}
+
+/// The creator's PCZT with one transparent input changed the way a foreign Constructor may set it
+/// (the in-repo builder always emits sequence: None, no required lock times, SIGHASH_ALL). The change
+/// is patched into the serialisation and parsed back. Returns the description and the PCZT.
+fn wire_variant(b: &Base, kind: u8, input_sel: u32, val: u32) -> Option<(String, Pczt)> {
+    if b.n_tin == 0 {
+        return None;
+    }
+    let i = pick_index(input_sel, b.n_tin);
+    let mut bytes = b.pre_io.clone().serialize().ok()?;
+    let inp = &b.pre_io.transparent().inputs()[i];
+    let at = find(&bytes, inp.prevout_txid(), 8)?;
+    let t = at + 32 + 1; // prevout index < 4: one byte
+    if bytes.get(t..t + 4)? != [0, 0, 0, 0] {
+        return None;
+    }
+    let (what, pos, payload): (String, usize, Vec<u8>) = match kind {
+        0 => {
+            let v = [0u32, 1, 0xffff_fffe, 0xffff_ffff, val][(val % 5) as usize];
+            (format!("input {i}: sequence = {v}"), t, leb128(v))
+        }
+        1 => {
+            let v = 500_000_000 + val % 1_000_000_000;
+            (format!("input {i}: required_time_lock_time = {v}"), t + 1, leb128(v))
+        }
+        2 => {
+            let v = 1 + val % 499_999_999;
+            (format!("input {i}: required_height_lock_time = {v}"), t + 2, leb128(v))
+        }
+        _ => {
+            if b.p2sh[i] {
+                return None;
+            }
+            let spk = inp.script_pubkey();
+            let s_at = find(&bytes, spk, t + 4)?;
+            let h = s_at + spk.len();
+            if bytes.get(h..h + 3)? != [0, 0, 1] {
+                return None;
+            }
+            let mut types = vec![0x02u8, 0x81, 0x82];
+            if i < b.n_tout {
+                types.extend([0x03, 0x83]);
+            }
+            let ty = types[(val as usize) % types.len()];
+            bytes[h + 2] = ty;
+            let p = Pczt::parse(&bytes).ok()?;
+            return Some((format!("input {i}: sighash_type = {ty:#x}"), p));
+        }
+    };
+    let mut patch = vec![1u8];
+    patch.extend(payload);
+    bytes.splice(pos..pos + 1, patch);
+    let p = Pczt::parse(&bytes).ok()?;
+    Some((what, p))
+}
+
 fn describe_step(step: &Step, uni: &[Key], settable: &[Key]) -> String {
     match step {
         Step::Add(l) if !settable.is_empty() => format!("Add{:?}", l.iter().map(|(s, v)| (settable[pick_index(*s, settable.len())], *v)).collect::<Vec<_>>()),
@@ -1057,7 +1092,29 @@ fn check_roles(ctx: &Ctx, c: &RolesCase) -> CaseResult {
 
     let uni = universe(&b);
     let settable: Vec<Key> = uni.iter().copied().filter(|k| set_vals(&b, k) > 0).collect();
-    let mut p = if c.refinalize {
+    let variant = c.wire.and_then(|(k, i, v)| wire_variant(&b, k, i, v));
+    let mut txid0 = txid0;
+    let mut head = head;
+    let mut p = if let Some((what, pre)) = &variant {
+        // another transaction (or the same one, for a sighash type): its own id is the reference
+        head = format!("{head}; foreign-constructor variant: {what}");
+        let Ok(t) = pczt_txid(pre) else {
+            // e.g. incompatible lock time requirements: nothing to preserve
+            return Ok(Obs::trivial().label("variant-without-txid"));
+        };
+        // (an explicit final sequence number is the default one)
+        if what.contains("sighash_type") || what.ends_with("sequence = 4294967295") {
+            vensure_eq!(t, b.txid_parts, "creator-txid-wrong", "a sighash type is not transaction-effecting data [{head}]");
+        } else {
+            vensure!(t != b.txid_parts, "creator-txid-wrong", "sequence / lock time are effecting data, yet the id did not change [{head}]");
+        }
+        txid0 = t;
+        let q = pczt::roles::io_finalizer::IoFinalizer::new(pre.clone())
+            .finalize_io()
+            .map_err(|e| Fail::new("role-rejected-valid-request", format!("IoFinalizer: {e:?} [{head}]")))?;
+        vensure_eq!(pczt_txid(&q).ok(), Some(txid0), "io-finalizer-changed-txid", "IO Finalizer [{head}]");
+        q
+    } else if c.refinalize {
         pczt::roles::io_finalizer::IoFinalizer::new(b.pre_io.clone())
             .finalize_io()
             .map_err(|e| Fail::new("role-rejected-valid-request", format!("IoFinalizer on the creator's PCZT: {e:?} [{head}]")))?
@@ -1065,6 +1122,7 @@ fn check_roles(ctx: &Ctx, c: &RolesCase) -> CaseResult {
         b.pczt.clone()
     };
     let mut snapshots = vec![p.clone()];
+    let mut snap_gone: Vec<BTreeSet<Key>> = vec![BTreeSet::new()];
     let mut gone: BTreeSet<Key> = BTreeSet::new();
     let (mut ok_steps, mut refused, mut sigs, mut unpromised) = (0u64, 0u64, 0u64, 0u64);
     let mut kinds: BTreeSet<&'static str> = BTreeSet::new();
@@ -1082,7 +1140,7 @@ fn check_roles(ctx: &Ctx, c: &RolesCase) -> CaseResult {
             Step::LowLevelNoop(_) => "low-level-signer",
         };
         let mut gone2 = gone.clone();
-        let r = catch(|| apply_step(&b, &p, step, &snapshots, &mut gone2, &uni, &settable))
+        let r = catch(|| apply_step(&b, &p, step, &snapshots, &snap_gone, &mut gone2, &uni, &settable, variant.is_some()))
             .map_err(|e| Fail::new(format!("role-panic:{}", dep_site(&e)), format!("step {si} ({name}) panicked: {e} [{head}; steps so far {trace:?}]")))?;
         match r {
             Err(f) if f.signature == SOFT => {
@@ -1094,6 +1152,20 @@ fn check_roles(ctx: &Ctx, c: &RolesCase) -> CaseResult {
             Ok(q) => {
                 gone = gone2;
                 let promised = effects_promised(&b, &q, &gone);
+                if let (Ok(t), Step::FinalizeSpends, Some((what, _))) = (pczt_txid(&q), step, &variant) {
+                    // Known finding `spend-finalizer-erases-required-lock-time`, classified exactly: the
+                    // Spend Finalizer ran on an input with a required lock time and the id moved.
+                    if t != txid0 && what.contains("_lock_time") {
+                        let sig = "spend-finalizer-erases-required-lock-time";
+                        if ctx.known_hit(sig) {
+                            return Ok(Obs::new(kinds.len() >= 2).label("foreign-constructor-variant").label("known-lock-time-erased").count("role-steps-applied", ok_steps));
+                        }
+                        vfail!(
+                            sig,
+                            "SpendFinalizer::finalize_spends changed the transaction id from {txid0} to {t}: it clears the inputs' required lock times, which determine nLockTime [{head}; steps so far {trace:?}]"
+                        );
+                    }
+                }
                 match pczt_txid(&q) {
                     Ok(t) => vensure_eq!(t, txid0, "role-changed-txid", "after step {si} ({name}) the PCZT implies another transaction id [{head}; steps so far {trace:?}; step {}]", describe_step(step, &uni, &settable)),
                     Err(e) => {
@@ -1101,7 +1173,7 @@ fn check_roles(ctx: &Ctx, c: &RolesCase) -> CaseResult {
                         unpromised += 1;
                     }
                 }
-                if matches!(step, Step::Add(_) | Step::SignHigh(_)) || si + 1 == c.steps.len() {
+                if variant.is_none() && (matches!(step, Step::Add(_) | Step::SignHigh(_)) || si + 1 == c.steps.len()) {
                     sigs += verify_signatures(&b, &q).map_err(|f| Fail::new(f.signature, format!("after step {si} ({name}): {} [{head}; steps so far {trace:?}; step {}]", f.msg, describe_step(step, &uni, &settable))))?;
                 }
                 ok_steps += 1;
@@ -1109,6 +1181,7 @@ fn check_roles(ctx: &Ctx, c: &RolesCase) -> CaseResult {
                 trace.push(describe_step(step, &uni, &settable));
                 p = q;
                 snapshots.push(p.clone());
+                snap_gone.push(gone.clone());
             }
         }
     }
@@ -1119,6 +1192,7 @@ fn check_roles(ctx: &Ctx, c: &RolesCase) -> CaseResult {
         .count("signatures-verified", sigs)
         .count("states-without-computable-effects", unpromised)
         .label_if(c.refinalize, "io-finalizer-rerun")
+        .label_if(variant.is_some(), "foreign-constructor-variant")
         .label(if b.v6 { "base-v6" } else { "base-v5" });
     for k in kinds {
         obs = obs.label(k);
@@ -1267,6 +1341,30 @@ fn check_extract(ctx: &Ctx, c: &ExtractCase) -> CaseResult {
             .finish();
         copies.push(q);
     }
+    // parties that hold a proven copy but passed it on without (some of) the proofs
+    {
+        let proven: Vec<Pczt> = copies[1..].to_vec();
+        for (n, q) in proven.into_iter().enumerate() {
+            let mut r = Recipe::default();
+            if n == 0 && b.n_sspend + b.n_sout > 0 {
+                if b.n_sspend > 0 {
+                    r.st.insert(Key::SSp((c.order[0] as usize % b.n_sspend) as u8, SSp::Zkproof), St::Absent);
+                }
+                if b.n_sout > 0 {
+                    r.st.insert(Key::SOut((c.order[1] as usize % b.n_sout) as u8, recipe::SOut::Zkproof), St::Absent);
+                }
+            } else if c.order[2] % 2 == 0 {
+                r.st.insert(Key::OZkproof(Pool::Orchard), St::Absent);
+                r.st.insert(Key::OZkproof(Pool::Ironwood), St::Absent);
+            }
+            if !r.st.is_empty() {
+                let red = recipe::redact(&b, q.clone(), &r);
+                if bytes::ser2(&red) != bytes::ser2(&q) {
+                    copies.push(red);
+                }
+            }
+        }
+    }
     // a party that only redacted (never bsk: known finding combine-drops-bsk)
     {
         let uni = universe(&b);
@@ -1349,7 +1447,7 @@ fn check_extract(ctx: &Ctx, c: &ExtractCase) -> CaseResult {
 // Regression list (fixed cases worth re-running forever)
 // ---------------------------------------------------------------------------------------------
 
-const N_REGRESSION: u64 = 14 + 14 + 3 + 1 + 6;
+const N_REGRESSION: u64 = 14 + 14 + 3 + 1 + 6 + 2;
 
 fn check_regression(ctx: &Ctx, i: u64) -> CaseResult {
     use pczt::roles::redactor::Redactor;
@@ -1412,8 +1510,54 @@ fn check_regression(ctx: &Ctx, i: u64) -> CaseResult {
             }
             Ok(Obs::nontrivial().key(3100).label("placeholder"))
         }
+        // known finding spend-finalizer-erases-required-lock-time (template 0: transparent only, v5)
+        38 => {
+            use pczt::roles::{io_finalizer::IoFinalizer, signer::Signer, spend_finalizer::SpendFinalizer};
+            let b = base::base(ctx.seed, 0);
+            let (what, pre) = wire_variant(&b, 2, 0, 41).ok_or_else(|| Fail::new("harness-variant-unavailable", "cannot patch required_height_lock_time into template 0"))?;
+            let before = pczt_txid(&pre).map_err(|e| Fail::new("effects-unavailable", format!("{e:?} [{what}]")))?;
+            vensure!(before != b.txid_parts, "creator-txid-wrong", "a required lock time changes nLockTime, hence the id [{what}]");
+            let p = IoFinalizer::new(pre).finalize_io().map_err(|e| Fail::new("role-rejected-valid-request", format!("{e:?}")))?;
+            let mut signer = Signer::new(p).map_err(|e| Fail::new("role-rejected-valid-request", format!("{e:?}")))?;
+            for i in 0..b.n_tin {
+                signer.sign_transparent(i, &b.t_sks[i][0]).map_err(|e| Fail::new("role-rejected-valid-request", format!("{e:?}")))?;
+            }
+            let signed = signer.finish();
+            vensure_eq!(pczt_txid(&signed).ok(), Some(before), "role-changed-txid", "Signer [{what}]");
+            let fin = SpendFinalizer::new(signed).finalize_spends().map_err(|e| Fail::new("role-rejected-valid-request", format!("{e:?}")))?;
+            let after = pczt_txid(&fin).map_err(|e| Fail::new("effects-unavailable", format!("{e:?}")))?;
+            vensure!(
+                after == before,
+                "spend-finalizer-erases-required-lock-time",
+                "SpendFinalizer::finalize_spends changed the transaction id from {before} to {after} [{what}]"
+            );
+            Ok(Obs::nontrivial().key(3200).label("lock-time"))
+        }
+        // known finding txid-panic-on-malformed-bundle (template 3: Sapling spend with a proof generation key)
+        39 => {
+            let b = base::base(ctx.seed, 3);
+            let mut r = Recipe::default();
+            let idx = b.s_spend_idx[0] as u8;
+            r.st.insert(Key::SSp(idx, recipe::SSp::Pgk), St::Set(0));
+            let p = materialise(&b, &r)?;
+            let mut bytes = p.serialize().map_err(|e| Fail::new("accepted-not-serializable", format!("{e:?}")))?;
+            let ak = b.s_extsk.as_ref().unwrap().expsk.proof_generation_key().ak.to_bytes();
+            let at = find(&bytes, &ak, 8).ok_or_else(|| Fail::new("harness-variant-unavailable", "ak not found in the serialisation"))?;
+            for x in &mut bytes[at..at + 32] {
+                *x = 0xff; // not a point encoding
+            }
+            vensure!(Pczt::parse(&bytes).is_ok(), "harness-variant-unavailable", "patched bytes no longer parse");
+            match catch(|| zcash_pool_migration::pczt_txid::stored_pczt_txid(&bytes)) {
+                Ok(r) => vensure!(r.is_err(), "malformed-bundle-accepted", "a proof generation key that is not a curve point yields a txid"),
+                Err(e) => vfail!(
+                    format!("txid-panic-on-malformed-bundle:{}", dep_site(&e)),
+                    "stored_pczt_txid panicked on bytes that Pczt::parse accepts (documented: Err(TxIdError::Effects)): {e}"
+                ),
+            }
+            Ok(Obs::nontrivial().key(3300).label("malformed-pgk"))
+        }
         // header handling
-        _ => {
+        32..=37 => {
             let j = i - 32;
             let bytes: Vec<u8> = match j {
                 0 => vec![],
@@ -1435,26 +1579,8 @@ fn check_regression(ctx: &Ctx, i: u64) -> CaseResult {
             }
             Ok(Obs::nontrivial().key(4000 + j).label("header"))
         }
+        _ => Ok(Obs::trivial()),
     }
-}
-
-/// "payload @ /root/.cargo/registry/src/<index>/crate-1.2.3/src/x.rs:207" -> "crate-1.2.3/src/x.rs"
-fn dep_site(p: &str) -> String {
-    let loc = p.rsplit_once(" @ ").map(|(_, l)| l).unwrap_or(p);
-    let file = loc.rsplit_once(':').map(|(f, _)| f).unwrap_or(loc);
-    match file.split_once(".cargo/registry/src/") {
-        Some((_, rest)) => rest.split_once('/').map(|(_, r)| r.to_string()).unwrap_or_else(|| rest.to_string()),
-        None => file.trim_start_matches("/repo/").to_string(),
-    }
-}
-
-fn first_diff(a: &str, b: &str) -> String {
-    for (la, lb) in a.lines().zip(b.lines()) {
-        if la != lb {
-            return format!("got `{}` expected `{}`", la.trim(), lb.trim());
-        }
-    }
-    format!("line counts {} / {}", a.lines().count(), b.lines().count())
 }
 
 fn main() {
@@ -1493,7 +1619,7 @@ fn main() {
     }
     if want("combine") {
         let c2 = ctx.clone();
-        ctx.run_prop("combine", arb_combine_case, ctx.tier.pick(2_600, 150_000), move |c| check_combine(&c2, c));
+        ctx.run_prop("combine", arb_combine_case, ctx.tier.pick(3_000, 150_000), move |c| check_combine(&c2, c));
     }
     if want("encoding") {
         let c2 = ctx.clone();
@@ -1526,6 +1652,7 @@ fn main() {
             ctx.require_label_fraction("roles", role, 0.1);
         }
         ctx.require_min_count("roles", "signatures-verified", 2_000);
+        ctx.require_label_fraction("roles", "foreign-constructor-variant", 0.08);
     }
     ctx.extra(
         "field_kinds",
